@@ -4,7 +4,7 @@
 From Coq Require Import ZArith List Bool.
 Import ListNotations.
 Require Import PV.Lib.Bytes PV.Model.Armor PV.Model.Cleartext PV.Spec.Rfc4880_cleartext
-  PV.Proofs.Cleartext_lemmas PV.Proofs.Cleartext_lemmas2.
+  PV.Proofs.Cleartext_lemmas PV.Proofs.Cleartext_lemmas2 PV.Proofs.Cleartext_lemmas3.
 Open Scope Z_scope.
 
 (* ---- dash escaping ---- *)
@@ -51,6 +51,20 @@ Proof.
   - apply canon_agree_iff, D3.
 Qed.
 Print Assumptions C11_frame_outside_defects.
+
+(* the same message after every LF of the armored text became CR LF (e-mail transport): Hash: list, headers and
+   packets unchanged, the text comes back with CR LF line ends ... *)
+Theorem C11_frame_crlf : forall names t h p,
+  names <> [] -> Forall (fun n => wf_hash_name n = true) names ->
+  is_ascii_text t = true -> wf_headers h -> wf_bytes p -> p <> [] ->
+  read (to_crlf (render names t h p)) = Some (Some (hash_names names), to_crlf t, headers_opt h, p, false).
+Proof. exact frame_crlf. Qed.
+Print Assumptions C11_frame_crlf.
+
+(* ... whose signed octets are those of the text that was signed (for a text without CR) *)
+Theorem C11_canon_to_crlf : forall t, forallb (fun c => negb (c =? 13)) t = true -> canon_pgpy (to_crlf t) = canon_pgpy t.
+Proof. exact canon_to_crlf. Qed.
+Print Assumptions C11_canon_to_crlf.
 
 Example C11_frame_premises :
   Forall (fun n => wf_hash_name n = true) [[83; 72; 65; 50; 53; 54]; [83; 72; 65; 45; 49]] /\
